@@ -193,6 +193,9 @@ pub struct ChunkCase {
 	pub ct: (u8, u32),
 	/// small request limit (exercises the Content-Length / Limited paths together with chunking)
 	pub limit: Option<u16>,
+	/// 0 = TowerService, 1 = low-level `http::call_with_service_builder`
+	#[serde(default)]
+	pub entry: u8,
 }
 
 pub struct Chunking;
@@ -216,7 +219,7 @@ fn blank_only(f: &[u8]) -> bool {
 
 async fn compare_framings(fix: &Fixture, body: &[u8], frames: Vec<Vec<u8>>, content_length: bool, ct: &[u8], obs: &mut Obs, reference: &HttpResp) {
 	let req = HttpReq { method: "POST".into(), headers: vec![("content-type".into(), ct.to_vec())], frames: frames.clone(), content_length, uri: "/".into() };
-	let r = fix.http(req).await;
+	let r = if fix.cfg.entry == 1 { fix.http_lowlevel(req).await } else { fix.http(req).await };
 	settle().await;
 	if r.status != reference.status || r.body != reference.body {
 		let first_blank = frames.first().is_some_and(|f| blank_only(f)) && frames.len() > 1;
@@ -263,8 +266,9 @@ impl SubCheck for Chunking {
 			any::<bool>(),
 			(0u8..6, any::<u32>()),
 			proptest::option::weighted(0.15, 40u16..200),
+			prop_oneof![3 => Just(0u8), 1 => Just(1u8)],
 		)
-			.prop_map(|(body, lead, cuts, content_length, ct, limit)| ChunkCase { body, lead, cuts, content_length, ct, limit })
+			.prop_map(|(body, lead, cuts, content_length, ct, limit, entry)| ChunkCase { body, lead, cuts, content_length, ct, limit, entry })
 			.boxed()
 	}
 	fn run(&self, case: &ChunkCase, obs: &mut Obs) {
@@ -300,8 +304,10 @@ impl SubCheck for Chunking {
 				cfg.max_request = l as u32;
 				obs.class("small-request-limit");
 			}
+			cfg.entry = case.entry;
+			obs.class(if case.entry == 1 { "entry:low-level" } else { "entry:tower-service" });
 			let fix = Fixture::new(cfg);
-			let reference = fix.http_post(&body).await;
+			let reference = fix.http_post_e(&body).await;
 			settle().await;
 			compare_framings(&fix, &body, frames.clone(), case.content_length, &ct, obs, &reference).await;
 			fix.ctx.gates.release_all();
